@@ -332,8 +332,8 @@ pub struct Node {
     pub writes: Vec<u8>,
     /// effective access as seen by the enclosing scheduler (for a batch: union
     /// of controller data and everything inside, recursively); bit masks
-    pub eff_reads: u8,
-    pub eff_writes: u8,
+    pub eff_reads: u64,
+    pub eff_writes: u64,
     /// for batches
     pub times: u8,
     pub multi: bool,
@@ -355,8 +355,8 @@ pub struct PlanInfo {
     pub rejected: Vec<usize>,
 }
 
-fn mask(v: &[u8]) -> u8 {
-    v.iter().fold(0u8, |m, r| m | (1 << r))
+fn mask(v: &[u8]) -> u64 {
+    v.iter().fold(0u64, |m, r| m | (1u64 << r))
 }
 
 fn number(ops: &[Op], parent: Option<usize>, depth: usize, info: &mut PlanInfo) -> Vec<usize> {
@@ -409,7 +409,7 @@ fn number(ops: &[Op], parent: Option<usize>, depth: usize, info: &mut PlanInfo) 
                     children: vec![],
                     barriers_before: barriers,
                     is_static: true,
-                    defaults: mask(&st.data.defaults()),
+                    defaults: mask(&st.data.defaults()) as u8,
                 });
                 ids.push(id);
             }
@@ -434,7 +434,7 @@ fn number(ops: &[Op], parent: Option<usize>, depth: usize, info: &mut PlanInfo) 
                     barriers_before: barriers,
                     is_static: false,
                     // every controller kind of the harness uses default-providing Read / Write
-                    defaults: mask(&b.ctrl.reads()) | mask(&b.ctrl.writes()),
+                    defaults: (mask(&b.ctrl.reads()) | mask(&b.ctrl.writes())) as u8,
                 });
                 let ch = number(&b.inner, Some(id), depth + 1, info);
                 let mut er = mask(&b.ctrl.reads());
